@@ -231,6 +231,29 @@ def lazy_generator(model, R, scope):
     R.ok('LAZY-GENERATOR', 'examined functions', 'concepts/', f'{n} cached functions scanned')
 
 
+def mutate_while_iterating(model, R, scope):
+    """``for x in C: ... C.remove(x)`` (also insert/append/pop/discard/add on the very collection being iterated): list-backed
+    collections skip the element after each removal, sets raise RuntimeError."""
+    n = 0
+    for func in scope:
+        for loop in walk(func.body):
+            if not isinstance(loop, (ast.For, ast.AsyncFor)):
+                continue
+            it = loop.iter
+            key = '.'.join(chain(it)) if chain(it) else None
+            if key is None:
+                continue
+            n += 1
+            for node in walk(loop.body):
+                if (isinstance(node, ast.Call) and isinstance(node.func, ast.Attribute)
+                        and node.func.attr in ('remove', 'discard', 'pop', 'insert', 'append', 'add', 'clear', 'extend', 'move', 'replace')
+                        and chain(node.func.value) and '.'.join(chain(node.func.value)) == key):
+                    R.bad('MUTATE-WHILE-ITERATING', func, node, f'{key} is not modified while it is iterated', f'iterate over a copy (list({key}))',
+                          f'for ... in {key}: ... {src(node)[:60]}',
+                          extra={'consequence': 'after each removal the next element is skipped (list-backed) or RuntimeError is raised (set)'})
+    R.ok('MUTATE-WHILE-ITERATING', 'examined functions', 'concepts/', f'{n} loops over named collections scanned')
+
+
 def run(model, R):
     """Generic rules over exactly the functions the property's own rules examined (and their nested functions), so a
     defect elsewhere in the same module is reported by the property it belongs to and by no other."""
@@ -263,3 +286,4 @@ def run(model, R):
     degenerate_operands(model, R, scope)
     empty_reduce(model, R, scope)
     lazy_generator(model, R, scope)
+    mutate_while_iterating(model, R, scope)
